@@ -4,6 +4,7 @@ From Coq Require Import Extraction ExtrOcamlBasic.
 From KV Require Import Bytes WalCodec Memtable Engine.
 From KV Require Import ReadOnly.
 From KV Require Import ApiView.
+From KV Require Import ReplProto.
 Extraction Language OCaml.
 Set Extraction Output Directory ".".
 Separate Extraction
@@ -17,4 +18,6 @@ Separate Extraction
   Engine.init Engine.put Engine.del Engine.apply_batch Engine.tx_commit Engine.get Engine.flush
   Engine.reopen Engine.run Engine.buffer_ops
   ReadOnly.start ReadOnly.step_client ReadOnly.step_repl ReadOnly.node_get ReadOnly.tx_get
-  ReadOnly.node_scan ReadOnly.node_info ReadOnly.rw_open ReadOnly.any_open ApiView.api_view.
+  ReadOnly.node_scan ReadOnly.node_info ReadOnly.rw_open ReadOnly.any_open ApiView.api_view
+  ReplProto.sys_init ReplProto.step ReplProto.settle ReplProto.views_agree ReplProto.scan_of
+  ReplProto.cuts_ok ReplProto.idle ReplProto.good.
